@@ -193,4 +193,600 @@ theorem norm_isZero (S : Schema) (n : Nat) (k : Kind) (tag : Nat) (v : Val) (ver
         · contradiction
       all_goals (rw [normK.eq_def] at h; simp at h)
 
+
+/-! ## Plain structures (ProtocolVersion): their codec neither reads nor writes the version cell -/
+
+def plainFields (fs : List Field) : Bool :=
+  fs.all fun f => f.kind.scalar && !f.omitempty && !f.setVersion && f.vrange.isNone && !f.dynTag
+
+theorem Res.bind_ver_a {α : Type} (r : Res (α × Cur)) (g : α → Val) (w w' : Option Ver) (v : Val) (c1 : Cur)
+    (h : (r >>= fun p => (pure (g p.1, p.2, w) : Res (Val × DecSt))) = .ok (v, c1, w')) :
+    w' = w ∧ ∀ w0, (r >>= fun p => (pure (g p.1, p.2, w0) : Res (Val × DecSt)))
+      = .ok (v, c1, w0) := by
+  cases r with
+  | ok a =>
+    obtain ⟨x, c'⟩ := a
+    simp only [Res.ok_bind, Res.pure_eq, Res.ok.injEq, Prod.mk.injEq] at h
+    obtain ⟨rfl, rfl, rfl⟩ := h
+    exact ⟨rfl, fun w0 => rfl⟩
+  | err e => simp only [Res.err_bind] at h; contradiction
+  | panic m => simp only [Res.panic_bind] at h; contradiction
+
+theorem Res.bind_ver_b (r : Res (Int × Cur)) (w w' : Option Ver) (v : Val) (c1 : Cur)
+    (h : (r >>= fun p =>
+        if p.1 < 0 then (.err .range : Res (Val × DecSt)) else pure (.int p.1, p.2, w)) = .ok (v, c1, w')) :
+    w' = w ∧ ∀ w0, (r >>= fun p =>
+        if p.1 < 0 then (.err .range : Res (Val × DecSt)) else pure (.int p.1, p.2, w0))
+      = .ok (v, c1, w0) := by
+  cases r with
+  | ok a =>
+    obtain ⟨x, c'⟩ := a
+    simp only [Res.ok_bind] at h ⊢
+    split at h
+    · contradiction
+    · rename_i hx
+      simp only [Res.pure_eq, Res.ok.injEq, Prod.mk.injEq] at h
+      obtain ⟨rfl, rfl, rfl⟩ := h
+      exact ⟨rfl, fun w0 => by simp only [if_neg hx, Res.pure_eq]⟩
+  | err e => simp only [Res.err_bind] at h; contradiction
+  | panic m => simp only [Res.panic_bind] at h; contradiction
+
+theorem decK_zero (S : Schema) (k : Kind) (tag : Nat) (c : Cur) (w : Option Ver) :
+    decK S 0 k tag c w = .err .other := by rw [decK]
+
+theorem decK_scalar_ver (S : Schema) (fd : Nat) (k : Kind) (hk : k.scalar = true) (tag : Nat) (c : Cur)
+    (w w' : Option Ver) (v : Val) (c1 : Cur) (h : decK S fd k tag c w = .ok (v, c1, w')) :
+    w' = w ∧ ∀ w0, decK S fd k tag c w0 = .ok (v, c1, w0) := by
+  cases fd with
+  | zero => rw [decK_zero] at h; contradiction
+  | succ fd =>
+    cases k <;> simp only [Kind.scalar] at hk <;> try contradiction
+    all_goals (simp only [decK] at h ⊢)
+    all_goals first
+      | exact Res.bind_ver_a _ _ _ _ _ _ h
+      | exact Res.bind_ver_b _ _ _ _ _ h
+      | exact Res.bind_ver_a _ (fun x => Val.bytes (some x)) _ _ _ _ h
+      | exact Res.bind_ver_a _ (fun (x : Nat) => Val.int (x : Int)) _ _ _ _ h
+
+theorem decFields_zero (S : Schema) (fs : List Field) (c : Cur) (w : Option Ver) :
+    decFields S 0 fs c w = .err .other := by rw [decFields]
+
+theorem decFields_plain_ver (S : Schema) : (fs : List Field) → plainFields fs = true → (fd : Nat) →
+    (c : Cur) → (w w' : Option Ver) → (vs : List Val) → (c1 : Cur) →
+    decFields S fd fs c w = .ok (vs, c1, w') →
+    w' = w ∧ ∀ w0, decFields S fd fs c w0 = .ok (vs, c1, w0)
+  | fs, hp, 0, c, w, w', vs, c1, h => by rw [decFields_zero] at h; contradiction
+  | [], _, fd + 1, c, w, w', vs, c1, h => by
+    rw [decFields_nil] at h
+    simp only [Res.ok.injEq, Prod.mk.injEq] at h
+    obtain ⟨rfl, rfl, rfl⟩ := h
+    exact ⟨rfl, fun w0 => by rw [decFields_nil]⟩
+  | f :: fs, hp, fd + 1, c, w, w', vs, c1, h => by
+    simp only [plainFields, List.all_cons, Bool.and_eq_true, Bool.not_eq_true', Option.isNone_iff_eq_none] at hp
+    obtain ⟨⟨⟨⟨⟨hsc, hom⟩, hsv⟩, hvr⟩, hdt⟩, hrest⟩ := hp
+    have hds : ∀ w0, f.dskip c w0 = false := by intro w0; simp [Field.dskip, hvr, hom]
+    rw [decFields_cons] at h
+    simp only [hdt, hds, hsv, Bool.false_eq_true, if_false] at h
+    cases hk : decK S fd f.kind f.tag c w with
+    | ok a =>
+      obtain ⟨v, c2, w2⟩ := a
+      obtain ⟨rfl, hind⟩ := decK_scalar_ver S fd f.kind hsc f.tag c w w2 v c2 hk
+      simp only [hk, Res.ok_bind] at h
+      cases hr : decFields S fd fs c2 w2 with
+      | ok b =>
+        obtain ⟨vs1, c3, w3⟩ := b
+        obtain ⟨rfl, hind2⟩ := decFields_plain_ver S fs (by simpa [plainFields] using hrest) fd c2 w2 w3 vs1 c3 hr
+        simp only [hr, Res.ok_bind, Res.pure_eq, Res.ok.injEq, Prod.mk.injEq] at h
+        obtain ⟨rfl, rfl, rfl⟩ := h
+        refine ⟨rfl, fun w0 => ?_⟩
+        rw [decFields_cons]
+        simp only [hdt, hds, hsv, Bool.false_eq_true, if_false, hind w0, Res.ok_bind, hind2 w0, Res.pure_eq]
+      | err e => simp only [hr, Res.err_bind] at h; contradiction
+      | panic m => simp only [hr, Res.panic_bind] at h; contradiction
+    | err e => simp only [hk, Res.err_bind] at h; contradiction
+    | panic m => simp only [hk, Res.panic_bind] at h; contradiction
+
+
+theorem decStruct_succ (S : Schema) (n : Nat) (fields : List Field) (tag : Nat) (c : Cur) (ver : Option Ver) :
+    decStruct S (n + 1) fields tag c ver = (do
+      let it ← c.expect 1 tag
+      let inner ← Cur.start it.val
+      let (vs, _, ver') ← decFields S n fields inner ver
+      let c' ← c.next
+      pure (.struct vs, c', ver')) := by rw [decStruct]
+
+theorem decStruct_zero (S : Schema) (fields : List Field) (tag : Nat) (c : Cur) (ver : Option Ver) :
+    decStruct S 0 fields tag c ver = .err .other := by rw [decStruct]
+
+theorem decK_struct (S : Schema) (n id : Nat) (tag : Nat) (c : Cur) (ver : Option Ver) :
+    decK S (n + 1) (.struct id) tag c ver =
+      (if (S.structDef id).decCustom then decCustom S n (S.structDef id).custom id tag c ver
+       else decStruct S n (S.structDef id).fields tag c ver) := by
+  simp only [decK]
+
+theorem plainKind_struct {S : Schema} {k : Kind} (h : S.plainKind k = true) :
+    ∃ id, k = .struct id ∧ (S.structDef id).encCustom = false ∧ (S.structDef id).decCustom = false
+      ∧ plainFields (S.structDef id).fields = true := by
+  cases k <;> simp only [Schema.plainKind] at h <;> try contradiction
+  rename_i id
+  simp only [Bool.and_eq_true, Bool.not_eq_true'] at h
+  exact ⟨id, rfl, h.1.1, h.1.2, h.2⟩
+
+theorem decK_plain_ver (S : Schema) (fd : Nat) (k : Kind) (hk : S.plainKind k = true) (tag : Nat) (c : Cur)
+    (w w' : Option Ver) (v : Val) (c1 : Cur) (h : decK S fd k tag c w = .ok (v, c1, w')) :
+    w' = w ∧ ∀ w0, decK S fd k tag c w0 = .ok (v, c1, w0) := by
+  obtain ⟨id, rfl, _, hdc, hpf⟩ := plainKind_struct hk
+  cases fd with
+  | zero => rw [decK_zero] at h; contradiction
+  | succ fd =>
+    rw [decK_struct] at h
+    simp only [hdc, Bool.false_eq_true, if_false] at h
+    cases fd with
+    | zero => rw [decStruct_zero] at h; contradiction
+    | succ fd =>
+      rw [decStruct_succ] at h
+      cases h1 : c.expect 1 tag with
+      | ok it =>
+        simp only [h1, Res.ok_bind] at h
+        cases h2 : Cur.start it.val with
+        | ok inner =>
+          simp only [h2, Res.ok_bind] at h
+          cases h3 : decFields S fd (S.structDef id).fields inner w with
+          | ok a =>
+            obtain ⟨vs, c2, w2⟩ := a
+            obtain ⟨rfl, hind⟩ := decFields_plain_ver S _ hpf fd inner w w2 vs c2 h3
+            simp only [h3, Res.ok_bind] at h
+            cases h4 : c.next with
+            | ok c' =>
+              simp only [h4, Res.ok_bind, Res.pure_eq, Res.ok.injEq, Prod.mk.injEq] at h
+              obtain ⟨rfl, rfl, rfl⟩ := h
+              refine ⟨rfl, fun w0 => ?_⟩
+              rw [decK_struct]
+              simp only [hdc, Bool.false_eq_true, if_false]
+              rw [decStruct_succ]
+              simp only [h1, h2, hind w0, h4, Res.ok_bind, Res.pure_eq]
+            | err e => simp only [h4, Res.err_bind] at h; contradiction
+            | panic m => simp only [h4, Res.panic_bind] at h; contradiction
+          | err e => simp only [h3, Res.err_bind] at h; contradiction
+          | panic m => simp only [h3, Res.panic_bind] at h; contradiction
+        | err e => simp only [h2, Res.err_bind] at h; contradiction
+        | panic m => simp only [h2, Res.panic_bind] at h; contradiction
+      | err e => simp only [h1, Res.err_bind] at h; contradiction
+      | panic m => simp only [h1, Res.panic_bind] at h; contradiction
+
+theorem normFields_plain (S : Schema) : (fs : List Field) → plainFields fs = true → (n : Nat) →
+    (vs : List Val) → (ver : Option Ver) → (vs' : List Val) → (w : Option Ver) →
+    normFields S n fs vs ver = some (vs', w) →
+    w = ver ∧ ∀ i, (vs'.getD i (.int 0)).asInt = (vs.getD i (.int 0)).asInt
+  | fs, _, 0, vs, ver, vs', w, h => by rw [normFields_zero] at h; contradiction
+  | [], _, n + 1, [], ver, vs', w, h => by
+    rw [normFields_nil] at h
+    obtain ⟨rfl, rfl⟩ := pair_eq (Option.some.inj h)
+    exact ⟨rfl, fun i => rfl⟩
+  | [], _, n + 1, v :: vs, ver, vs', w, h => by rw [normFields_nil_cons] at h; contradiction
+  | f :: fs, _, n + 1, [], ver, vs', w, h => by rw [normFields_cons_nil] at h; contradiction
+  | f :: fs, hp, n + 1, v :: vs, ver, vs', w, h => by
+    simp only [plainFields, List.all_cons, Bool.and_eq_true, Bool.not_eq_true', Option.isNone_iff_eq_none] at hp
+    obtain ⟨⟨⟨⟨⟨hsc, hom⟩, hsv⟩, hvr⟩, hdt⟩, hrest⟩ := hp
+    rw [normFields_cons] at h
+    have hv1 : f.ver1 v ver = ver := by simp [Field.ver1, hsv]
+    have hsk : f.skip v ver = false := by simp [Field.skip, hvr, hom]
+    have het : f.etag S v = f.tag := by simp [Field.etag, hdt]
+    simp only [hv1, hsk, het, Bool.false_eq_true, if_false] at h
+    cases hx : normK S n f.kind f.tag v ver with
+    | none => simp only [hx] at h; contradiction
+    | some p =>
+      obtain ⟨v', w1⟩ := p
+      simp only [hx] at h
+      cases n with
+      | zero => rw [normK_zero] at hx; contradiction
+      | succ n =>
+        obtain ⟨rfl, _, _, _, _, _, hai, _⟩ := scalar_rt S n f.kind hsc f.tag v v' ver w1 hx
+        cases hr : normFields S (n + 1) fs vs w1 with
+        | none => simp only [hr] at h; contradiction
+        | some q =>
+          obtain ⟨vs1, w2⟩ := q
+          simp only [hr] at h
+          obtain ⟨rfl, rfl⟩ := pair_eq (Option.some.inj h)
+          obtain ⟨rfl, hind⟩ := normFields_plain S fs (by simpa [plainFields] using hrest) (n + 1) vs w1 vs1 w2 hr
+          refine ⟨rfl, fun i => ?_⟩
+          cases i with
+          | zero => exact hai
+          | succ i => exact hind i
+
+theorem plain_norm (S : Schema) (n : Nat) (k : Kind) (hk : S.plainKind k = true) (tag : Nat) (v : Val)
+    (ver : Option Ver) (v' : Val) (w : Option Ver) (h : normK S n k tag v ver = some (v', w)) :
+    w = ver ∧ v'.asVer = v.asVer := by
+  obtain ⟨id, rfl, hec, hdc, hpf⟩ := plainKind_struct hk
+  cases n with
+  | zero => rw [normK_zero] at h; contradiction
+  | succ n =>
+    rw [normK_struct] at h
+    split at h
+    · rename_i fs
+      simp only [hec, hdc, Bool.false_eq_true, if_false, Bool.not_false, Bool.true_or, if_true] at h
+      cases hx : normFields S n (S.structDef id).fields fs ver with
+      | none => simp only [hx] at h; contradiction
+      | some p =>
+        obtain ⟨fs', w1⟩ := p
+        simp only [hx] at h
+        obtain ⟨rfl, rfl⟩ := pair_eq (Option.some.inj h)
+        obtain ⟨rfl, hind⟩ := normFields_plain S _ hpf n fs ver fs' w1 hx
+        refine ⟨rfl, ?_⟩
+        simp only [Val.asVer, Val.field, hind]
+    · contradiction
+
+
+/-! ## The field loop: encoder side (any struct that is encoded reflectively) -/
+
+def PFe (S : Schema) (n : Nat) : Prop :=
+  ∀ (fs : List Field) (vs : List Val) (ver : Option Ver) (vs' : List Val) (ver' : Option Ver),
+    (∀ f ∈ fs, S.fieldEncOK f = true) → normFields S n fs vs ver = some (vs', ver') →
+    ∃ items, encFields S n fs vs ver = .ok (items, ver') ∧ encFields S n fs vs' ver = .ok (items, ver')
+      ∧ normFields S n fs vs' ver = some (vs', ver') ∧ vs'.length = fs.length ∧ vs.length = fs.length
+
+theorem etag_norm (S : Schema) (f : Field) (n t : Nat) (v v' : Val) (w w' : Option Ver)
+    (h : normK S n .iface t v w = some (v', w')) : f.etag S v' = f.etag S v := by
+  cases n with
+  | zero => rw [normK_zero] at h; contradiction
+  | succ n =>
+    rw [normK_iface] at h
+    split at h
+    · obtain ⟨rfl, -⟩ := pair_eq (Option.some.inj h); rfl
+    · rename_i d x
+      obtain ⟨_, h⟩ := ite_eq_some h
+      cases hx : normK S n (S.dyn d).kind t x w with
+      | none => simp only [hx] at h; contradiction
+      | some p =>
+        obtain ⟨x', w1⟩ := p
+        simp only [hx] at h
+        obtain ⟨rfl, -⟩ := pair_eq (Option.some.inj h)
+        rfl
+    · contradiction
+
+theorem pfe_succ (S : Schema) (n : Nat) (hK : PK S n) (hF : PFe S n) : PFe S (n + 1) := by
+  intro fs vs ver vs' ver' hok h
+  cases fs with
+  | nil =>
+    cases vs with
+    | nil =>
+      rw [normFields_nil] at h
+      obtain ⟨rfl, rfl⟩ := pair_eq (Option.some.inj h)
+      exact ⟨[], by rw [encFields_nil], by rw [encFields_nil], by rw [normFields_nil], rfl, rfl⟩
+    | cons v vs => rw [normFields_nil_cons] at h; contradiction
+  | cons f fs =>
+    cases vs with
+    | nil => rw [normFields_cons_nil] at h; contradiction
+    | cons v vs =>
+      have hf := hok f (List.mem_cons_self ..)
+      have hrest : ∀ g ∈ fs, S.fieldEncOK g = true := fun g hg => hok g (List.mem_cons_of_mem _ hg)
+      simp only [Schema.fieldEncOK, Bool.and_eq_true, Bool.or_eq_true, Bool.not_eq_true'] at hf
+      obtain ⟨⟨hzf, hpl⟩, hdt⟩ := hf
+      rw [normFields_cons] at h
+      by_cases hs : f.skip v (f.ver1 v ver) = true
+      · simp only [hs, if_true] at h
+        obtain ⟨hz, h⟩ := ite_eq_some h
+        cases hr : normFields S n fs vs (f.ver1 v ver) with
+        | none => simp only [hr] at h; contradiction
+        | some p =>
+          obtain ⟨vs1, w⟩ := p
+          simp only [hr] at h
+          obtain ⟨rfl, rfl⟩ := pair_eq (Option.some.inj h)
+          obtain ⟨b, hb, hb', hbn, hl1, hl2⟩ := hF fs vs _ vs1 w hrest hr
+          refine ⟨[] ++ b, ?_, ?_, ?_, by simp [hl1], by simp [hl2]⟩
+          · rw [encFields_cons]; simp only [hs, if_true, Res.ok_bind, hb, Res.pure_eq]
+          · rw [encFields_cons]; simp only [hs, if_true, Res.ok_bind, hb', Res.pure_eq]
+          · rw [normFields_cons]; simp only [hs, if_true, hz, hbn]
+      · have hs' : f.skip v (f.ver1 v ver) = false := by simpa using hs
+        simp only [hs', Bool.false_eq_true, if_false] at h
+        cases hx : normK S n f.kind (f.etag S v) v (f.ver1 v ver) with
+        | none => simp only [hx] at h; contradiction
+        | some p =>
+          obtain ⟨v', w1⟩ := p
+          simp only [hx] at h
+          cases hr : normFields S n fs vs w1 with
+          | none => simp only [hr] at h; contradiction
+          | some q =>
+            obtain ⟨vs1, w2⟩ := q
+            simp only [hr] at h
+            obtain ⟨rfl, rfl⟩ := pair_eq (Option.some.inj h)
+            obtain ⟨a, ha, ha', han, _⟩ := hK f.kind _ v _ v' w1 hx
+            obtain ⟨b, hb, hb', hbn, hl1, hl2⟩ := hF fs vs _ vs1 w2 hrest hr
+            -- the normalised value is encoded under the same cell, is not skipped, under the same tag
+            have hv1 : f.ver1 v' ver = f.ver1 v ver := by
+              unfold Field.ver1
+              by_cases hsv : f.setVersion = true
+              · simp only [hsv, if_true]
+                rcases hpl with hpl | hpl
+                · rw [hsv] at hpl; contradiction
+                · rw [(plain_norm S n f.kind hpl _ v _ v' w1 hx).2]
+              · simp only [hsv, if_false]; rfl
+            have hsk : f.skip v' (f.ver1 v ver) = false := by
+              unfold Field.skip at hs' ⊢
+              simp only [Bool.or_eq_false_iff, Bool.and_eq_false_iff] at hs' ⊢
+              refine ⟨hs'.1, ?_⟩
+              rcases hs'.2 with h1 | h1
+              · exact Or.inl h1
+              · rcases hzf with hzf | hzf
+                · exact Or.inl hzf
+                · exact Or.inr (norm_isZero S n f.kind _ v _ v' w1 hzf hx h1)
+            have het : f.etag S v' = f.etag S v := by
+              rcases hdt with hdt | hdt
+              · simp [Field.etag, hdt]
+              · have hk : f.kind = .iface := by simpa using hdt
+                rw [hk] at hx
+                exact etag_norm S f n _ v v' _ w1 hx
+            refine ⟨a ++ b, ?_, ?_, ?_, by simp [hl1], by simp [hl2]⟩
+            · rw [encFields_cons]
+              simp only [hs', Bool.false_eq_true, if_false, ha, Res.ok_bind, hb, Res.pure_eq]
+            · rw [encFields_cons]
+              simp only [hv1, hsk, het, Bool.false_eq_true, if_false, ha', Res.ok_bind, hb', Res.pure_eq]
+            · rw [normFields_cons]
+              simp only [hv1, hsk, het, Bool.false_eq_true, if_false, han, hbn]
+
+
+/-! ## The field loop: decoder side (structs decoded reflectively) -/
+
+theorem zeroOf_of_isZero (S : Schema) (m : Nat) (k : Kind) (v : Val) (h : isZeroOfKind k v = true) :
+    zeroOf S (m + 1) k = v := by
+  cases v with
+  | int x =>
+    have h' : k.intLike = true ∧ x = 0 := by
+      cases k <;> simp_all [isZeroOfKind]
+    obtain ⟨hk, rfl⟩ := h'
+    cases k <;> simp only [Kind.intLike] at hk <;> first | contradiction | rw [zeroOf]
+  | bool b => cases k <;> simp_all [isZeroOfKind, zeroOf]
+  | text s =>
+    cases k <;> simp_all [isZeroOfKind, zeroOf]
+  | bytes b => cases k <;> simp_all [isZeroOfKind, zeroOf]
+  | big x => cases k <;> simp_all [isZeroOfKind, zeroOf]
+  | struct fs => cases k <;> simp_all [isZeroOfKind]
+  | ptr o => cases k <;> simp_all [isZeroOfKind, zeroOf]
+  | list xs => cases k <;> simp_all [isZeroOfKind, zeroOf]
+  | iface o => cases k <;> simp_all [isZeroOfKind, zeroOf]
+  | any o => cases k <;> simp_all [isZeroOfKind, zeroOf]
+  | anyStruct its => cases k <;> simp_all [isZeroOfKind, zeroOf]
+
+
+def PFd (S : Schema) (n : Nat) : Prop :=
+  ∀ (fs : List Field) (vs : List Val) (ver : Option Ver) (vs' : List Val) (ver' : Option Ver)
+    (items : List Item),
+    (∀ f ∈ fs, S.fieldOK f = true) → unamb fs = true →
+    normFields S n fs vs ver = some (vs', ver') → encFields S n fs vs ver = .ok (items, ver') →
+    (htag (items.map Item.raw) = 0 ∨ htag (items.map Item.raw) ∈ firstTags fs)
+    ∧ (Item.AllInRange items → ∀ fd, Val.depthList vs ≤ fd →
+        decFields S fd fs (Cur.of (items.map Item.raw)) ver = .ok (vs', Cur.of [], ver'))
+
+theorem fieldOK_encOK {S : Schema} {f : Field} (h : S.fieldOK f = true) : S.fieldEncOK f = true := by
+  simp only [Schema.fieldOK, Bool.and_eq_true, Bool.or_eq_true, Bool.not_eq_true', decide_eq_true_eq] at h
+  simp only [Schema.fieldEncOK, Bool.and_eq_true, Bool.or_eq_true, Bool.not_eq_true']
+  obtain ⟨⟨⟨⟨⟨hdt, _⟩, _⟩, _⟩, hz⟩, hsv⟩ := h
+  refine ⟨⟨?_, ?_⟩, Or.inl hdt⟩
+  · rcases hz with hz | hz
+    · simp only [Bool.or_eq_false_iff] at hz; exact Or.inl hz.1
+    · exact Or.inr hz
+  · rcases hsv with hsv | hsv
+    · exact Or.inl hsv
+    · exact Or.inr hsv.2
+
+theorem htag_append_cons (it : Item) (a : List Item) (l : List RawItem) :
+    htag ((it :: a).map Item.raw ++ l) = it.tag := rfl
+
+theorem not_always_first {f : Field} {fs : List Field} (h : f.always = false) :
+    firstTags (f :: fs) = f.tag :: firstTags fs := by
+  simp [firstTags, h]
+
+theorem tag_mem_first (f : Field) (fs : List Field) : f.tag ∈ firstTags (f :: fs) := by
+  unfold firstTags; split <;> simp
+
+theorem pfd_succ (S : Schema) (n : Nat) (hK : PK S n) (hD : PFd S n) : PFd S (n + 1) := by
+  intro fs vs ver vs' ver' items hok hun h he
+  cases fs with
+  | nil =>
+    cases vs with
+    | nil =>
+      rw [normFields_nil] at h
+      rw [encFields_nil] at he
+      obtain ⟨rfl, rfl⟩ := pair_eq (Option.some.inj h)
+      simp only [Res.ok.injEq, Prod.mk.injEq] at he
+      obtain ⟨rfl, -⟩ := he
+      refine ⟨Or.inl rfl, fun _ fd hfd => ?_⟩
+      obtain ⟨f, rfl, -⟩ := fuel_succ (by have := Val.depthList_pos []; omega : 0 + 1 ≤ fd)
+      rw [decFields_nil]; rfl
+    | cons v vs => rw [normFields_nil_cons] at h; contradiction
+  | cons f fs =>
+    cases vs with
+    | nil => rw [normFields_cons_nil] at h; contradiction
+    | cons v vs =>
+      have hf := hok f (List.mem_cons_self ..)
+      have hrest : ∀ g ∈ fs, S.fieldOK g = true := fun g hg => hok g (List.mem_cons_of_mem _ hg)
+      simp only [Schema.fieldOK, Bool.and_eq_true, Bool.or_eq_true, Bool.not_eq_true',
+        decide_eq_true_eq] at hf
+      obtain ⟨⟨⟨⟨⟨hdt, htpos⟩, hdec⟩, _⟩, hz⟩, hsv⟩ := hf
+      simp only [unamb, Bool.and_eq_true, Bool.or_eq_true, Bool.not_eq_true'] at hun
+      obtain ⟨hun1, hun2⟩ := hun
+      have het : f.etag S v = f.tag := by simp [Field.etag, hdt]
+      -- a field that may be absent or repeated does not share its tag with what can follow
+      have hclash : ∀ (b : List Item), f.always = false →
+          (htag (b.map Item.raw) = 0 ∨ htag (b.map Item.raw) ∈ firstTags fs) →
+          htag (b.map Item.raw) ≠ f.tag := by
+        intro b hna hb heq
+        rcases hun1 with h1 | h1
+        · rw [hna] at h1; contradiction
+        · rcases hb with hb | hb
+          · omega
+          · rw [heq] at hb
+            have : (firstTags fs).contains f.tag = true := by simpa using hb
+            rw [h1] at this; contradiction
+      rw [normFields_cons] at h
+      rw [encFields_cons] at he
+      by_cases hs : f.skip v (f.ver1 v ver) = true
+      · -- skipped field
+        have hnsv : f.setVersion = false := by
+          rcases hsv with hsv | hsv
+          · exact hsv
+          · exfalso
+            have hvr : f.vrange = none := by simpa using hsv.1.2
+            simp [Field.skip, hsv.1.1, hvr] at hs
+        have hv1 : f.ver1 v ver = ver := by simp [Field.ver1, hnsv]
+        have hna : f.always = false := by
+          unfold Field.skip at hs
+          unfold Field.always
+          cases hvr : f.vrange with
+          | none =>
+            simp only [hvr, Bool.false_or, Bool.and_eq_true] at hs
+            simp [hs.1]
+          | some r => simp
+        have hs0 : f.skip v ver = true := by rw [hv1] at hs; exact hs
+        simp only [hv1, hs0, if_true] at h he
+        obtain ⟨hzk, h⟩ := ite_eq_some h
+        cases hr : normFields S n fs vs ver with
+        | none => simp only [hr] at h; contradiction
+        | some p =>
+          obtain ⟨vs1, w⟩ := p
+          simp only [hr] at h
+          obtain ⟨rfl, rfl⟩ := pair_eq (Option.some.inj h)
+          simp only [Res.ok_bind] at he
+          cases hb : encFields S n fs vs ver with
+          | ok q =>
+            obtain ⟨b, w2⟩ := q
+            simp only [hb, Res.ok_bind, Res.pure_eq, Res.ok.injEq, Prod.mk.injEq, List.nil_append] at he
+            obtain ⟨rfl, rfl⟩ := he
+            obtain ⟨hhead, hdecb⟩ := hD fs vs ver vs1 w2 b hrest hun2 hr hb
+            refine ⟨?_, ?_⟩
+            · rw [not_always_first hna]
+              rcases hhead with h1 | h1
+              · exact Or.inl h1
+              · exact Or.inr (List.mem_cons_of_mem _ h1)
+            · intro hr' fd hfd
+              simp only [Val.depthList] at hfd
+              obtain ⟨fd', rfl, hfd'⟩ := fuel_succ hfd
+              have hne := hclash b hna hhead
+              have hds : f.dskip (Cur.of (b.map Item.raw)) ver = true := by
+                unfold Field.dskip
+                have hs := hs0
+                unfold Field.skip at hs
+                simp only [Cur.tag_of, ne_eq, hne, not_false_eq_true, decide_true, Bool.and_true]
+                cases hvr : f.vrange with
+                | none =>
+                  simp only [hvr, Bool.false_or, Bool.and_eq_true] at hs
+                  simp [hs.1]
+                | some r =>
+                  simp only [hvr, Bool.or_eq_true, Bool.and_eq_true, Bool.not_eq_true'] at hs
+                  rcases hs with h1 | h1
+                  · simp [h1]
+                  · simp [h1.1]
+              obtain ⟨fd2, rfl, _⟩ := fuel_succ (by have := Val.depthList_pos vs; omega : 0 + 1 ≤ fd')
+              rw [decFields_cons]
+              simp only [hdt, hds, Bool.false_eq_true, if_false, if_true, Res.ok_bind, hnsv,
+                zeroOf_of_isZero S fd2 f.kind v hzk, hdecb hr' (fd2 + 1) (by omega), Res.pure_eq]
+          | err e => simp only [hb, Res.err_bind] at he; contradiction
+          | panic m => simp only [hb, Res.panic_bind] at he; contradiction
+      · -- encoded field
+        have hs' : f.skip v (f.ver1 v ver) = false := by simpa using hs
+        simp only [hs', Bool.false_eq_true, if_false, het] at h he
+        cases hx : normK S n f.kind f.tag v (f.ver1 v ver) with
+        | none => simp only [hx] at h; contradiction
+        | some p =>
+          obtain ⟨v', w1⟩ := p
+          simp only [hx] at h
+          cases hr : normFields S n fs vs w1 with
+          | none => simp only [hr] at h; contradiction
+          | some q =>
+            obtain ⟨vs1, w2⟩ := q
+            simp only [hr] at h
+            obtain ⟨rfl, rfl⟩ := pair_eq (Option.some.inj h)
+            obtain ⟨a, ha, _, _, hta, hla, hnz, hda⟩ := hK f.kind f.tag v _ v' w1 hx
+            simp only [ha, Res.ok_bind] at he
+            cases hb : encFields S n fs vs w1 with
+            | ok q =>
+              obtain ⟨b, w3⟩ := q
+              simp only [hb, Res.ok_bind, Res.pure_eq, Res.ok.injEq, Prod.mk.injEq] at he
+              obtain ⟨rfl, rfl⟩ := he
+              obtain ⟨hhead, hdecb⟩ := hD fs vs w1 vs1 w3 b hrest hun2 hr hb
+              have hal : f.always = true → emitsOne f.kind v = true := by
+                intro hal
+                simp only [Field.always, Bool.and_eq_true] at hal
+                simp [emitsOne, hal.2]
+              refine ⟨?_, ?_⟩
+              · cases a with
+                | nil =>
+                  have hna : f.always = false := by
+                    cases hfa : f.always with
+                    | false => rfl
+                    | true => have := hla (hal hfa); simp at this
+                  rw [not_always_first hna]
+                  rcases hhead with h1 | h1
+                  · exact Or.inl h1
+                  · exact Or.inr (List.mem_cons_of_mem _ h1)
+                | cons it a' =>
+                  right
+                  rw [List.map_append, htag_append_cons, hta it (List.mem_cons_self ..)]
+                  exact tag_mem_first f fs
+              · intro hr' fd hfd
+                simp only [Val.depthList] at hfd
+                obtain ⟨fd', rfl, hfd'⟩ := fuel_succ hfd
+                have hr2 := (Item.allInRange_append a b).1 hr'
+                rw [List.map_append]
+                -- the decoder does not skip
+                have hds : f.dskip (Cur.of (a.map Item.raw ++ b.map Item.raw)) ver = false := by
+                  unfold Field.dskip
+                  unfold Field.skip at hs'
+                  simp only [Bool.or_eq_false_iff] at hs' ⊢
+                  constructor
+                  · cases hvr : f.vrange with
+                    | none => rfl
+                    | some r =>
+                      have hnsv : f.setVersion = false := by
+                        rcases hsv with h1 | h1
+                        · exact h1
+                        · rw [hvr] at h1; simp at h1
+                      have hv1 : f.ver1 v ver = ver := by simp [Field.ver1, hnsv]
+                      rw [hvr, hv1] at hs'
+                      simp only [Bool.not_eq_false'] at hs'
+                      simp [hs'.1]
+                  · cases hom : f.omitempty with
+                    | false => rfl
+                    | true =>
+                      have hvz : v.isZero = false := by
+                        have := hs'.2; rw [hom] at this; simpa using this
+                      have hzf : f.kind.zeroFaithful = true := by
+                        rcases hz with h1 | h1
+                        · simp [hom] at h1
+                        · exact h1
+                      have hane := hnz hzf hvz
+                      cases a with
+                      | nil => exact absurd rfl hane
+                      | cons it a' =>
+                        simp only [Cur.tag_of, htag_append_cons,
+                          hta it (List.mem_cons_self ..), ne_eq, not_true_eq_false, decide_false,
+                          Bool.and_false]
+                have hnc : emitsOne f.kind v = true ∨ htag (b.map Item.raw) ≠ f.tag := by
+                  cases hfa : f.always with
+                  | true => exact Or.inl (hal hfa)
+                  | false => exact Or.inr (hclash b hfa hhead)
+                have hdk := hda hdec hr2.1 fd' (b.map Item.raw) (by omega) hnc
+                rw [decFields_cons]
+                simp only [hdt, hds, Bool.false_eq_true, if_false]
+                by_cases hsvb : f.setVersion = true
+                · -- set-version field: the decoder runs under the OLD cell and then adopts the value
+                  have hpl : S.plainKind f.kind = true := by
+                    rcases hsv with h1 | h1
+                    · rw [hsvb] at h1; contradiction
+                    · exact h1.2
+                  have hv1 : f.ver1 v ver = some v.asVer := by simp [Field.ver1, hsvb]
+                  rw [hv1] at hdk hx
+                  obtain ⟨hw1, hind⟩ := decK_plain_ver S fd' f.kind hpl f.tag _ _ _ _ _ hdk
+                  have hav := (plain_norm S n f.kind hpl _ v _ v' w1 hx).2
+                  subst hw1
+                  simp only [hind ver, Res.ok_bind, hsvb, if_true, hav, hdecb hr2.2 fd' (by omega),
+                    Res.pure_eq]
+                · have hnsv : f.setVersion = false := by simpa using hsvb
+                  have hv1 : f.ver1 v ver = ver := by simp [Field.ver1, hnsv]
+                  rw [hv1] at hdk
+                  simp only [hdk, Res.ok_bind, hnsv, Bool.false_eq_true, if_false,
+                    hdecb hr2.2 fd' (by omega), Res.pure_eq]
+            | err e => simp only [hb, Res.err_bind] at he; contradiction
+            | panic m => simp only [hb, Res.panic_bind] at he; contradiction
+
 end Kmip
